@@ -129,7 +129,7 @@ func init() {
 		}
 		joinLen := r.Pick(2, 3)
 		r.Bound = map[string]interface{}{"rows_per_side": r.Pick(2, 3), "left_tables": len(ls), "right_tables": len(rs), "query_shapes": len(shapes), "sql_cases": len(cases), "schedule_events_per_side": joinLen}
-		r.Rule = "part A: 19 join query shapes (inner eq / flipped / eq+lt / theta / 2 keys / expression key / WHERE conjuncts / USING / LOOKUP / LEFT / RIGHT / OUTER / nested) x every pair of multisets of <=2 (3) rows over 4 candidate rows per side (NULL and duplicate keys) x optimizer on/off through the real root command vs the reference nested-loop join; part B: the real StreamJoin/OuterJoin nodes under every interleaving of every pair of scripts (keys {NULL,1}, duplicates, <=2 (3) records per side, zero event times) via the join controller: final output must equal the SQL join whichever side ends first; non-trivial = case with at least one matching and one non-matching pair"
+		r.Rule = "part A: 19 join query shapes (inner eq / flipped / eq+lt / theta / 2 keys / expression key / WHERE conjuncts / USING / LOOKUP / LEFT / RIGHT / OUTER / nested) x every pair of multisets of <=2 (3) rows over 4 candidate rows per side (NULL and duplicate keys) x optimizer on/off through the real root command vs the reference nested-loop join; part B: the real StreamJoin/OuterJoin nodes under every interleaving of every pair of scripts (keys {NULL,1}, duplicates, <=2 (3) records per side, zero event times; a changelog-vs-one-row family with retractions; a family with event times {1,2} and per-side watermarks) via the join controller: final output must equal the SQL join whichever side ends first; non-trivial = case with at least one matching and one non-matching pair"
 		r.Assume("equality never matches NULL", "rejections at typecheck are counted (e.g. non-equality outer join predicates)", "hook H1 for part B")
 		cache := newFPCache()
 		if r.ShardChild() {
@@ -199,6 +199,19 @@ func init() {
 					}
 				}
 			}
+		}
+		// event-time family: records with event times {1,2} and per-side watermarks go through the join's event-time buffers
+		// (released by the minimum watermark, the rest at the end of both inputs); the final output must still be the SQL join
+		{
+			ts := stream.GenScripts(stream.ScriptOpts{Keys: []int{-1, 1}, Payloads: []int{1}, Times: []int{1, 2}, MaxLen: joinLen, Watermarks: true})
+			for _, k := range joinKinds {
+				for _, l := range ts {
+					for _, rr := range ts {
+						jjobs = append(jjobs, jjob{k, l, rr})
+					}
+				}
+			}
+			r.Extra["event_time_scripts"] = len(ts)
 		}
 		r.Extra["schedule_script_pairs"] = len(jjobs)
 		r.Sharded(16, 1, func(shard, n int) {
